@@ -19,12 +19,13 @@ class BaseANTLRSpineParserListener(kernSpineParserListener):
         # self.decorations = {}  # in order to standardize the order of decorators, we map the different properties to their class names
         # We cannot order it using the class name because there are rules with subrules, such as ties, or articulations. We order it using the encoding itself
         self.decorations: List[Subtoken] = []
+        self.rest_decorations: List[Subtoken] = []  # the decorations of the rests (in a chord, they are not those of its notes)
         self.in_chord = False
         # self.page_start_rows = [] # TODO
         self.measure_start_rows = []
         self.last_bounding_box = None
 
-    def _add_decoration(self, new_decoration: Subtoken):
+    def _add_decoration(self, new_decoration: Subtoken, decorations: List[Subtoken] = None):
         """
         Private method for ensuring there are no duplicated decorations.
 
@@ -32,14 +33,17 @@ class BaseANTLRSpineParserListener(kernSpineParserListener):
 
         Args:
             new_decoration (Subtoken): The new decoration to add.
+            decorations (List[Subtoken]): The list to add it to. Default: the decorations of the notes.
 
         Returns (None):
             None
         """
-        for existing_decoration in self.decorations:
+        if decorations is None:
+            decorations = self.decorations
+        for existing_decoration in decorations:
             if existing_decoration.encoding == new_decoration.encoding:
                 return
-        self.decorations.append(new_decoration)
+        decorations.append(new_decoration)
 
     def enterStart(self, ctx: kernSpineParser.StartContext):
         self.token = None
@@ -48,6 +52,7 @@ class BaseANTLRSpineParserListener(kernSpineParserListener):
         self.accidental_subtoken = None
         # self.decorations = {}
         self.decorations = []
+        self.rest_decorations = []
 
     # def process_decorations(self, ctx: ParserRuleContext):
     #     # in order to standardize the order of note decorators, we map the different properties to their class names
@@ -109,11 +114,11 @@ class BaseANTLRSpineParserListener(kernSpineParserListener):
         if decoration != '/' and decoration != '\\':
             decoration_encoding = ctx.getText()
             decoration_subtoken = Subtoken(decoration_encoding, TokenCategory.DECORATION)
-            self._add_decoration(decoration_subtoken)
+            self._add_decoration(decoration_subtoken, self.rest_decorations)
 
-    def addNoteRest(self, ctx, pitchduration_subtokens):
+    def addNoteRest(self, ctx, pitchduration_subtokens, decorations=None):
         # subtoken = Subtoken(self.decorations[key], TokenCategory.DECORATION)
-        token = NoteRestToken(ctx.getText(), pitchduration_subtokens, self.decorations)
+        token = NoteRestToken(ctx.getText(), pitchduration_subtokens, self.decorations if decorations is None else decorations)
         if self.in_chord:
             self.chord_tokens.append(token)
         else:
@@ -134,7 +139,9 @@ class BaseANTLRSpineParserListener(kernSpineParserListener):
         for duration_subtoken in self.duration_subtokens:
             pitch_duration_tokens.append(duration_subtoken)
         pitch_duration_tokens.append(Subtoken('r', TokenCategory.REST))
-        self.addNoteRest(ctx, pitch_duration_tokens)
+        # the notes of a chord share their decorations, but not with a rest among them: a rest with the stem or the beam of a
+        # note cannot be read again ('4c/ 4r' was exported as '4c/ 4r/'), nor can a note with the position of a rest
+        self.addNoteRest(ctx, pitch_duration_tokens, self.rest_decorations)
 
     def enterChord(self, ctx: kernSpineParser.ChordContext):
         self.in_chord = True
